@@ -194,7 +194,7 @@ What the misses had in common, and the generator / harness changes they led to (
   closed-form singlet (C06-6), vignetted axial bundles (C05-5), a tilted flat image surface (C09-6), single-column
   polynomial tables (C19-6).  C15-5 was missed by seed 0 and reported by an extra seed of the source-drift
   escalation (§11.10).
-* *Round 6 (self-consistent errors)*: 34 of the 38 changes were reported by the checks as they stood, because every
+* *Round 6 (self-consistent errors)*: 33 of the 40 changes were reported by the checks as they stood (7 after strengthening: C03-7, C06-7, C07-8, C10-7, C14-8, C15-8, C19-7), because every
   predicate compares with an independent reference (the Lean model run at `Float`, a separately traced ray, the data
   file) and none with a second route through the library; many re-made slips of earlier rounds and fell to corpus
   cases.  New value classes: the numerical aperture of an object immersed in glass (C03-7), the exact
